@@ -14,6 +14,7 @@ sys.path.insert(0, str(Path(__file__).resolve().parents[1] / 'sched'))
 from prop import SchedProp, run_workers  # noqa: E402
 import gen as sgen  # noqa: E402
 
+FLOWS = ['trigger', 'trigger', 'trigger', 'trigger', 'set_out', 'set_pre', 'remove', 'hold', 'release', 'trigger']
 MIX = ['hold', 'release', 'pause', 'resume', 'trigger', 'trigger', 'set_out', 'set_pre', 'remove', 'window',
        'window', 'reload', 'reload', 'set_hold_point', 'release_hold_point', 'stop_clean', 'stop_now',
        'stop_point']
@@ -74,7 +75,7 @@ class C25(SchedProp):
         'ZeroMQ publication itself (what is put on the publish queue is what is observed)',
     ]
     rule = ('(1) generated integer-cycling workflows driven through the real Scheduler by a seeded adaptive schedule '
-            '(kinds: complete / any (failures, noise) / cmd (hold, release, pause, stop + restart) / mix (group trigger, set '
+            '(kinds: complete / any (failures, noise) / cmd (hold, release, pause, stop + restart) / flows (group triggers, set, remove with --flow: several flows) / mix (group trigger, set '
             'outputs / prerequisites, remove, window resize, reload with changed definitions, stop + restart)); every '
             'published batch is replayed by the model, the pool is compared with the store after every data-store update; '
             '(2) component cases on the real functions: random stores and delta batches through apply_delta; what '
@@ -147,7 +148,7 @@ class C25(SchedProp):
 
     # ------------------------------------------------------------------ generation
     def sched_case(self, seed, kind, tier):
-        base = {'complete': 'complete', 'any': 'any', 'cmd': 'cmd', 'mix': 'cmdrl'}[kind]
+        base = {'complete': 'complete', 'any': 'any', 'cmd': 'cmd', 'mix': 'cmdrl', 'flows': 'cmdrl'}[kind]
         c = sgen.gen_case(seed, base, {})
         pol = c['policy']
         pol['obs_ds'] = True
@@ -155,6 +156,9 @@ class C25(SchedProp):
         pol['max_steps'] = 100 if tier == 'quick' else 200
         if kind == 'mix':
             pol.update(cmds=MIX, p_cmd=[0.12, 0.2, 0.3][seed % 3], restarts=[0, 1, 1, 2][seed % 4])
+        if kind == 'flows':
+            # several flows in the pool: group triggers with --flow, cylc set / remove with --flow, no restarts
+            pol.update(cmds=FLOWS, p_cmd=0.3, restarts=0)
         if kind == 'cmd':
             pol['cmds'] = list(pol['cmds']) + ['window']
         c['id'] = f'{kind}{seed}'
@@ -164,7 +168,7 @@ class C25(SchedProp):
     def gen(self, tier, rng):
         n = self.n_quick if tier == 'quick' else self.n_thorough
         base = rng.randrange(1 << 30)
-        kinds = ['mix', 'cmd', 'mix', 'any', 'mix', 'complete', 'mix', 'cmd']
+        kinds = ['mix', 'flows', 'cmd', 'mix', 'any', 'flows', 'complete', 'mix']
         for k in range(n):
             yield self.sched_case(base + k, kinds[k % len(kinds)], tier)
         yield from self.unit_cases(tier, rng)
@@ -542,7 +546,7 @@ class C25(SchedProp):
         out = []
         for o in raw['obs']:
             d = o['ds']
-            out.append({'ds': {k: d[k] for k in ('store', 'client', 'upd', 'pending', 'error')},
+            out.append({'ds': {k: d[k] for k in ('store', 'client', 'upd', 'ev', 'pending', 'error')},
                         'ccs': [[x['client_checksum'] for x in b['deltas']] for b in d['pub']],
                         'stop': o['stop'], 'stalled': o['stalled'], 'launch': o['launch'], 'polls': o['polls']})
         return out
